@@ -161,6 +161,27 @@ def run(prog: Program, ctx: Ctx) -> None:  # noqa: PLR0912,PLR0915
         pairs = [(o, n) for o in olds for n in news1] + [(o, n) for o in olds2[::3] for n in news2[::2]] + [(o, n) for o in olds2[::5] for n in news1]
     else:
         pairs = [(o, n) for o in olds for n in news1]
+    # the same transitions with `*args, **kwargs` standing next to the regular parameters (a signature that "accepts anything else"): what
+    # happens to the regular parameters still matters
+    def wrap(sig_: tuple) -> tuple | None:
+        if any(k in ("var_positional", "var_keyword") for _n, k, _d in sig_):
+            return None
+        posn = tuple(p_ for p_ in sig_ if p_[1] in ("positional_only", "positional_or_keyword"))
+        kwo = tuple(p_ for p_ in sig_ if p_[1] == "keyword_only")
+        out_ = (*posn, ("args", "var_positional", None), *kwo, ("kwargs", "var_keyword", None))
+        return out_ if _sig(out_) is not None else None
+
+    base_pairs = [(o, n) for o in _signatures(["a", "b"], [None, "1"], 1) for n in _signatures(["a", "c"], [None, "1"], 2)] + \
+                 [(o, n) for o in _signatures(["a"], ["1"], 1) for n in _signatures(["a"], ["2"], 1)]
+    wrapped = []
+    for o, n in base_pairs:
+        wo, wn = wrap(o), wrap(n)
+        if wn is not None and n:
+            wrapped.append((o, wn))
+            if wo is not None and o:
+                wrapped.append((wo, wn))
+    pairs += wrapped
+    ctx.analysed["pairs_with_both_variadics"] = len(wrapped)
     ctx.analysed["abstract_signature_pairs"] = len(pairs)
     n_break = n_ident = 0
     silent_seen: set[str] = set()
